@@ -377,7 +377,7 @@ fn main() {
     out.rule = "Coq-evaluated: every directed multigraph on 1..2 nodes with 0/1/2 parallel edges per ordered pair \
                 (self-loops included), every simple digraph with self-loops on 3 nodes (2^9), random multigraphs on \
                 4..7 nodes with dangling nodes; PageRank with (d,iterations,tolerance,dangling) in {(0.75,20,1e-4,on/off),\
-                (0.5,6,0,on),(0.85,4,0,off),(0.85,3,0,on)} on every graph and the default (0.85,20,1e-4,on/off) on one graph in 16 (quick) / 4 (thorough) (runs whose L1 difference comes within 1e-9 of the \
+                (0.5,6,0,on),(0.85,4,0,off),(0.85,3,0,on)} on every graph and the default (0.85,20,1e-4,on/off) on one graph in 48 (quick) / 8 (thorough) (runs whose L1 difference comes within 1e-9 of the \
                 tolerance are not sent to Coq), CDLP with max_iterations in {1,10} and permuted node ids. Rust-only: \
                 random graphs of 20..400 nodes and six graphs of 999/1000/1500 nodes, also re-run in child processes \
                 with RAYON_NUM_THREADS=1 and 8. Non-trivial = has an edge; distinct by case text."
@@ -391,7 +391,7 @@ fn main() {
         }
         ids
     };
-    let every = if args.thorough { 4 } else { 16 };
+    let every = if args.thorough { 8 } else { 48 };
     let mut gk = 0usize;
     // n = 0
     emit(&mut out, &G::new(0, vec![], vec![]), &CFGS, &[1, 10], "empty");
